@@ -968,7 +968,10 @@ pub async fn start_replication_supervisor(
                             );
                             guards.push(guard);
                         } else {
-                            panic!("Re-adding a secoundary that alrady exists!!!")
+                            log::warn!(
+                                "[start_replication_creator_thread] ignoring {}, it is already a cluster member",
+                                start_replicate_message
+                            );
                         }
                     }
 
